@@ -15,7 +15,8 @@ What is mirrored (containers.py, after the `fix:` commits on branch fix-C12):
 * transform.py       : `__setitem__/__setattr__/reset` delegation, the inner `BC.params.values = …`
                        re-sync performed by forward/backward/jacobian of the BoxCox1lam/1nu/2sym
                        classes; sampling / prior / printing touch nothing                          → `tstep`
-The getters `values/mins/maxs/defaults` return the internal array itself: an array is a `Nat`.
+The getters `values/mins/maxs/defaults` return the internal array itself: an array is a reference (`Ref = Nat`,
+written `Nat` in the structures so that `omega` sees through it) into the store.
 -/
 namespace HydroVerif.C12
 
